@@ -395,6 +395,16 @@ type StructM struct {
 
 var mupA, mupB, mupC int
 
+// SafeMsg2: a SafeMessager whose message is one thing and whose fields are
+// another (the fields are not declared safe)
+type SafeMsg2 struct {
+	Msg    string
+	secret string
+	Secret string
+}
+
+func (s SafeMsg2) SafeMessage() string { return s.Msg }
+
 // YieldStringer gives up the processor inside its method, so that calls on
 // other goroutines run while this one is in the middle of a print.
 type YieldStringer struct {
